@@ -2,22 +2,135 @@ package props
 
 import (
 	"fmt"
-	"go/ast"
-	"go/token"
 	"sort"
 	"strings"
 
 	"ddcheck/core"
+
+	"golang.org/x/tools/go/ssa"
 )
 
-// ConvClause describes one clause of the converter's final tag switch.
+// The converter's element visitor, as a set of decision paths.
+//
+// Everything the properties say about "what the converter does with a <tag>" is decided on the
+// decision paths of the visit callback that DomConverter.Convert hands to WalkNodes (resolved
+// through the call, whatever the callback is called), with unexported helpers expanded. The
+// events of a path are the calls on the document builder, the outcome is the visitor's result
+// (true = the walk descends into the element). Whether the source spells the dispatch as a
+// switch, an if-chain or a table of helpers makes no difference.
+
+type visitorModel struct {
+	visit, exit *ssa.Function
+	paths       []core.DecisionPath
+	atoms       map[string]bool
+	builder     string // canonical expression of the document builder
+	pos         string
+}
+
+var visitorCache = map[*core.Program]*visitorModel{}
+
+const tagAtomPrefix = `dom.TagName($1) == "`
+
+// visitor builds (once per program) the path model of the visit callback.
+func visitor(p *core.Program, r *core.Report, rule string) *visitorModel {
+	if vm, ok := visitorCache[p]; ok {
+		if vm == nil {
+			r.Undecided(rule, "converter visitor model", "the visit callback of Convert could not be analysed (see the first report)")
+		}
+		return vm
+	}
+	visitorCache[p] = nil
+	visit, exit := walkHandlers(p, r, rule)
+	if visit == nil {
+		return nil
+	}
+	vm := &visitorModel{visit: visit, exit: exit, pos: p.Pos(visit.Pos())}
+	// the builder: the receiver of the AddTextNode invocation
+	plain := core.NewCanon(p)
+	for _, in := range instrsOf(visit) {
+		if call, ok := in.(*ssa.Call); ok && call.Call.IsInvoke() && call.Call.Method.Name() == "AddTextNode" {
+			vm.builder = plain.Of(call.Call.Value)
+		}
+	}
+	if vm.builder == "" {
+		r.Undecided(rule, "converter visitor: document builder", "no AddTextNode call on a document builder found in the visit callback")
+		return nil
+	}
+	opts := core.DecisionOpts{MaxPaths: 400000,
+		Outcome: func(in ssa.Instruction, c *core.Canon) (string, bool) {
+			if ret, ok := in.(*ssa.Return); ok && len(ret.Results) == 1 {
+				return "return " + c.Of(ret.Results[0]), true
+			}
+			return "", false
+		},
+		Event: func(in ssa.Instruction, c *core.Canon) (string, bool) {
+			if st, ok := in.(*ssa.Store); ok && c.Of(st.Addr) == "&$1.Data" {
+				return "rename " + c.Of(st.Val), true // the visited element is given another tag name
+			}
+			call, ok := in.(*ssa.Call)
+			if !ok || !call.Call.IsInvoke() || c.Of(call.Call.Value) != vm.builder {
+				return "", false
+			}
+			var args []string
+			for _, a := range call.Call.Args {
+				args = append(args, c.Of(a))
+			}
+			return call.Call.Method.Name() + "(" + strings.Join(args, ",") + ")", true
+		}}
+	paths, atoms, err := core.EnumerateDecisions(p, visit, opts)
+	if err != nil {
+		r.Undecided(rule, "converter visitor model", err.Error())
+		return nil
+	}
+	vm.paths, vm.atoms = paths, atoms
+	visitorCache[p] = vm
+	return vm
+}
+
+// events of a path, in order.
+func pathEvents(pa core.DecisionPath) []string {
+	i := strings.LastIndex(pa.Outcome, " => ")
+	if i < 0 {
+		return nil
+	}
+	return strings.Split(pa.Outcome[:i], "; ")
+}
+
+// builderCalls: the events of a visitor path that are calls on the document builder.
+func builderCalls(pa core.DecisionPath) []string {
+	var out []string
+	for _, ev := range pathEvents(pa) {
+		if !strings.HasPrefix(ev, "rename ") {
+			out = append(out, ev)
+		}
+	}
+	return out
+}
+
+func pathResult(pa core.DecisionPath) string {
+	if i := strings.LastIndex(pa.Outcome, " => "); i >= 0 {
+		return pa.Outcome[i+4:]
+	}
+	return pa.Outcome
+}
+
+func litOf(pa core.DecisionPath, atom string) int {
+	for _, l := range pa.Lits {
+		if l.Atom == atom {
+			return tern(l.Val)
+		}
+	}
+	return 0
+}
+
+// ConvClause describes what the visitor does with elements of one tag name.
 type ConvClause struct {
-	Labels             []string
-	AlwaysReturnsFalse bool // the clause body ends in `return false` on its fall-through path
-	AlwaysReturnsTrue  bool
-	ReturnsFalseSome   bool            // contains a conditional `return false`
-	Calls              map[string]bool // builder methods / helpers called in the clause
-	Stores             []string        // assignments to fields of the node
+	Tag                string
+	Paths              int             // decision paths consistent with the tag (element, not turned into an embed)
+	AlwaysReturnsFalse bool            // no consistent path lets the walk descend
+	SomeReturnTrue     bool            // some consistent path descends
+	Calls              map[string]bool // builder methods called on consistent paths
+	Sig                string          // signature of the behaviour with the tag tests themselves removed
 }
 
 func (c *ConvClause) Describe() string {
@@ -26,121 +139,78 @@ func (c *ConvClause) Describe() string {
 		calls = append(calls, k)
 	}
 	sort.Strings(calls)
-	return fmt.Sprintf("labels=%v alwaysFalse=%v alwaysTrue=%v someFalse=%v calls=%v stores=%v", c.Labels, c.AlwaysReturnsFalse, c.AlwaysReturnsTrue, c.ReturnsFalseSome, calls, c.Stores)
+	return fmt.Sprintf("<%s>: %d paths, never descends=%v, builder calls=%v", c.Tag, c.Paths, c.AlwaysReturnsFalse, calls)
 }
 
-// ConvTable is the table extracted from DomConverter.visitElementNodeHandler.
+// ConvTable answers per-tag questions about the element visitor.
 type ConvTable struct {
-	Pos                 string
-	Clauses             []*ConvClause
-	ByLabel             map[string]*ConvClause
-	ExtractBeforeSwitch bool
-	AfterSwitchStart    bool // after the switch: StartNode + return true
+	Pos string
+	vm  *visitorModel
+	mem map[string]*ConvClause
 }
 
-// converterSwitch extracts the last string switch on the tag name in visitElementNodeHandler.
 func converterSwitch(p *core.Program, r *core.Report, rule string) *ConvTable {
-	fd, pkg := p.FuncDecl("internal/converter", "DomConverter", "visitElementNodeHandler")
-	if fd == nil {
-		r.Undecided(rule, "anchor converter.DomConverter.visitElementNodeHandler", "function declaration not found")
+	vm := visitor(p, r, rule)
+	if vm == nil {
 		return nil
 	}
-	sws := core.StringSwitches(pkg, fd.Body, nil)
-	if len(sws) == 0 {
-		r.Undecided(rule, "converter tag switch", "no string switch found in visitElementNodeHandler")
-		return nil
-	}
-	// the main one is the switch with the most labels
-	var main *core.SwitchTable
-	for _, s := range sws {
-		if main == nil || len(s.ByLabel) > len(main.ByLabel) {
-			main = s
-		}
-	}
-	t := &ConvTable{Pos: p.Pos(main.Stmt.Pos()), ByLabel: map[string]*ConvClause{}}
-	for _, cl := range main.Clauses {
-		c := &ConvClause{Labels: cl.Labels, Calls: map[string]bool{}}
-		if n := len(cl.Body); n > 0 {
-			if ret, ok := cl.Body[n-1].(*ast.ReturnStmt); ok && len(ret.Results) == 1 {
-				if id, ok := ret.Results[0].(*ast.Ident); ok {
-					c.AlwaysReturnsFalse = id.Name == "false"
-					c.AlwaysReturnsTrue = id.Name == "true"
-				}
-			}
-		}
-		for _, st := range cl.Body {
-			ast.Inspect(st, func(n ast.Node) bool {
-				switch x := n.(type) {
-				case *ast.ReturnStmt:
-					if len(x.Results) == 1 {
-						if id, ok := x.Results[0].(*ast.Ident); ok && id.Name == "false" {
-							c.ReturnsFalseSome = true
-						}
-					}
-				case *ast.CallExpr:
-					if sel, ok := x.Fun.(*ast.SelectorExpr); ok {
-						c.Calls[sel.Sel.Name] = true
-					}
-				case *ast.AssignStmt:
-					for _, l := range x.Lhs {
-						if sel, ok := l.(*ast.SelectorExpr); ok {
-							c.Stores = append(c.Stores, exprString(sel))
-						}
-					}
-				}
-				return true
-			})
-		}
-		t.Clauses = append(t.Clauses, c)
-		for _, l := range cl.Labels {
-			t.ByLabel[l] = c
-		}
-	}
-	// extraction before the switch: a call to a method named Extract occurs textually before it
-	ast.Inspect(fd.Body, func(n ast.Node) bool {
-		if call, ok := n.(*ast.CallExpr); ok {
-			if sel, ok := call.Fun.(*ast.SelectorExpr); ok && sel.Sel.Name == "Extract" && call.Pos() < main.Stmt.Pos() {
-				t.ExtractBeforeSwitch = true
-			}
-		}
-		return true
-	})
-	// after the switch
-	stmts := fd.Body.List
-	for i, s := range stmts {
-		if s == ast.Stmt(main.Stmt) {
-			rest := stmts[i+1:]
-			if len(rest) == 2 {
-				if es, ok := rest[0].(*ast.ExprStmt); ok {
-					if call, ok := es.X.(*ast.CallExpr); ok {
-						if sel, ok := call.Fun.(*ast.SelectorExpr); ok && sel.Sel.Name == "StartNode" {
-							if ret, ok := rest[1].(*ast.ReturnStmt); ok && len(ret.Results) == 1 {
-								if id, ok := ret.Results[0].(*ast.Ident); ok && id.Name == "true" {
-									t.AfterSwitchStart = true
-								}
-							}
-						}
-					}
-				}
-			}
-		}
-	}
-	return t
+	return &ConvTable{Pos: vm.pos, vm: vm, mem: map[string]*ConvClause{}}
 }
 
-func exprString(e ast.Expr) string {
-	switch x := e.(type) {
-	case *ast.Ident:
-		return x.Name
-	case *ast.SelectorExpr:
-		return exprString(x.X) + "." + x.Sel.Name
-	case *ast.StarExpr:
-		return "*" + exprString(x.X)
-	case *ast.BasicLit:
-		if x.Kind == token.STRING {
-			return x.Value
-		}
-		return x.Value
+// For computes the behaviour for elements named tag: the element paths on which every test
+// `TagName(node) == "x"` has the value it has for that tag, leaving out the paths on which an
+// embed extractor claimed the element (those are the business of C19).
+func (t *ConvTable) For(tag string) *ConvClause {
+	if c, ok := t.mem[tag]; ok {
+		return c
 	}
-	return strings.TrimSpace(fmt.Sprintf("%T", e))
+	c := &ConvClause{Tag: tag, AlwaysReturnsFalse: true, Calls: map[string]bool{}}
+	sigs := map[string]bool{}
+	for _, pa := range t.vm.paths {
+		if litOf(pa, `$1.Type == html.ElementNode`) == -1 || litOf(pa, `$1.Type == html.TextNode`) == 1 {
+			continue
+		}
+		consistent := true
+		var rest []string
+		for _, l := range pa.Lits {
+			if strings.HasPrefix(l.Atom, tagAtomPrefix) {
+				x := strings.TrimSuffix(strings.TrimPrefix(l.Atom, tagAtomPrefix), `"`)
+				if l.Val != (x == tag) {
+					consistent = false
+				}
+				continue
+			}
+			rest = append(rest, l.String())
+		}
+		if !consistent {
+			continue
+		}
+		embed := false
+		for _, ev := range builderCalls(pa) {
+			if strings.HasPrefix(ev, "AddEmbed(") {
+				embed = true
+			}
+		}
+		if embed {
+			continue
+		}
+		c.Paths++
+		for _, ev := range builderCalls(pa) {
+			c.Calls[ev[:strings.Index(ev, "(")]] = true
+		}
+		if pathResult(pa) != "return false" {
+			c.AlwaysReturnsFalse = false
+			c.SomeReturnTrue = true
+		}
+		sort.Strings(rest)
+		sigs[strings.Join(rest, " ∧ ")+" ⇒ "+pa.Outcome] = true
+	}
+	var ss []string
+	for s := range sigs {
+		ss = append(ss, s)
+	}
+	sort.Strings(ss)
+	c.Sig = strings.Join(ss, "\n")
+	t.mem[tag] = c
+	return c
 }
